@@ -9,9 +9,19 @@ DWORD = {"s": 4, "d": 8, "c": 8, "z": 16}
 def gen_case(rng, cid):
     ms = rng.choice([1, 4, 8]); rb = rng.choice([1, 4, 16]); b8 = rng.choice([0, 0, 4, 1, 7])
     n = rng.choice([1, 2, 3, 5, 8, 13]); w = rng.choice([1, 2, 3, 8])
-    lw = rng.choice([64, 200, 777, 1000, 4096, 4099, 20000, 100001])
+    lw = rng.choice([64, 200, 777, 1000, 4096, 4099, 20000, 100001, 0, 0])
     ops = ["case %s %d %d %d %d" % (cid, ms, rb, b8, lw)]
     live = []; nxt = 0
+    if lw == 0:
+        # a call without caller workspace, after whatever the earlier cases left in the file-static descriptor: only the
+        # factorization's own operations (worker set-up / release)
+        for _ in range(rng.randint(1, 5)):
+            if live and rng.random() < 0.4:
+                j = live.pop(rng.randrange(len(live))); ops.append("wf %d" % j)
+            elif nxt < 12:
+                ops.append("wi %d %d %d" % (nxt, n, w)); live.append(nxt); nxt += 1
+        for j in live: ops.append("wf %d" % j)
+        return "\n".join(ops) + "\n"
     for _ in range(rng.randint(3, 14)):
         k = rng.random()
         if k < 0.2:
